@@ -371,7 +371,8 @@ def hazS (cfg : Config) : Stmt → List String
               (if pureE v && disjoint (namesE v) (writesEs ts) then [] else [H_STORE]))
   | .augAssign _ t _ v => hazE cfg t ++ hazE cfg v ++ pairsHaz cfg "AugAssign" false [("target", t), ("value", v)]
   | .annAssign _ t a v _ =>
-      hazE cfg t ++ hazE cfg a ++ hazEs cfg v ++ (if quiet cfg t && quiet cfg a && quiets cfg v then [] else [H_DROPPED])
+      -- (statements leaked from the *annotation* are dropped too, but a local annotation is never evaluated)
+      hazE cfg t ++ hazEs cfg v ++ (if quiet cfg t && quiets cfg v then [] else [H_DROPPED])
   | .expr _ v => hazE cfg v
   | .if_ _ t b e => hazE cfg t ++ pairsHaz cfg "If" true [("test", t)] ++ hazSs cfg b ++ hazSs cfg e
   | .for_ _ tg it b e _ _ =>
